@@ -1269,6 +1269,83 @@ fn api_cmd(args: &[String]) {
             }
         }
     }
+    // ---- T4: a multi-glyph lookup under a range-restricted feature: a ligature (and a two-glyph context rule) applies only
+    //      where EVERY glyph it consumes lies in a cluster where the feature is on
+    {
+        use crate::fontgen::*;
+        let mut spec = FontSpec::basic(12);
+        let lig = Lookup::one(SubstSubtable::Ligature { coverage: Coverage::Glyphs(vec![1]), ligature_sets: vec![vec![Ligature { glyph: 9, components: vec![2, 3] }, Ligature { glyph: 8, components: vec![2] }]] });
+        let ctx = Lookup::one(SubstSubtable::Context3 { coverages: vec![Coverage::Glyphs(vec![4]), Coverage::Glyphs(vec![5])], lookups: vec![SeqLookup { sequence_index: 0, lookup_index: 2 }] });
+        let single = Lookup::one(SubstSubtable::Single1 { coverage: Coverage::Glyphs(vec![4]), delta: 6 });
+        spec.gsub = Some(Layout::with_features(vec![(*b"dlig", vec![0]), (*b"ss05", vec![1])], vec![lig, ctx, single]));
+        let data = build(&spec);
+        let face_f = Face::from_slice(&data, 0).expect("font F parses");
+        // glyphs 1 2 3 (-> 9, or 1 2 -> 8) and 4 5 (4 -> 10 before 5)
+        let text: Vec<u32> = vec![0, 1, 2, 5, 3, 4, 0, 1];
+        for tagname in ["dlig", "ss05"] {
+            for start in 0..=8u32 {
+                for end in start..=9u32 {
+                    for on in [true, false] {
+                        // `on`: the feature is switched ON inside [start, end); else globally on and switched OFF inside
+                        let tag = rustybuzz::ttf_parser::Tag::from_bytes(&tag4(tagname));
+                        let feats = if on { vec![Feature { tag, value: 1, start, end }] } else { vec![Feature { tag, value: 1, start: 0, end: u32::MAX }, Feature { tag, value: 0, start, end }] };
+                        let active = |c: u32| -> bool { let inside = start <= c && c < end; if on { inside } else { !inside } };
+                        let mut b = UnicodeBuffer::new();
+                        for (i, g) in text.iter().enumerate() {
+                            b.add(char::from_u32(BASE_CP + g).unwrap(), i as u32);
+                        }
+                        b.set_direction(Direction::LeftToRight);
+                        st.evals += 1;
+                        let f2 = &face_f;
+                        let fs = feats.clone();
+                        let out = match catch(std::panic::AssertUnwindSafe(move || { let gb = rustybuzz::shape(f2, &fs, b); gb.glyph_infos().iter().map(|i| (i.glyph_id, i.cluster)).collect::<Vec<_>>() })) {
+                            Ok(o) => o,
+                            Err(e) => {
+                                st.bad += 1;
+                                println!("fail kind=shape-panic:{} font=F feats={:?}", e, feats.iter().map(fmt_feature).collect::<Vec<_>>());
+                                continue;
+                            }
+                        };
+                        // expected, by the property's reading: scan left to right
+                        let gl: Vec<u32> = text.iter().map(|g| g + 1).collect();
+                        let mut want: Vec<(u32, u32)> = Vec::new();
+                        let mut i = 0usize;
+                        while i < gl.len() {
+                            let c = i as u32;
+                            if tagname == "dlig" && gl[i] == 1 && active(c) {
+                                if i + 2 < gl.len() && gl[i + 1] == 2 && gl[i + 2] == 3 && active(c + 1) && active(c + 2) {
+                                    want.push((9, c));
+                                    i += 3;
+                                    continue;
+                                }
+                                if i + 1 < gl.len() && gl[i + 1] == 2 && active(c + 1) {
+                                    want.push((8, c));
+                                    i += 2;
+                                    continue;
+                                }
+                            }
+                            if tagname == "ss05" && gl[i] == 4 && active(c) && i + 1 < gl.len() && gl[i + 1] == 5 && active(c + 1) {
+                                want.push((10, c));
+                                i += 1;
+                                continue;
+                            }
+                            want.push((gl[i], c));
+                            i += 1;
+                        }
+                        if want != gl.iter().enumerate().map(|(i, g)| (*g, i as u32)).collect::<Vec<_>>() {
+                            st.nontrivial += 1;
+                        }
+                        if out != want {
+                            st.bad += 1;
+                            if st.bad <= max_report {
+                                println!("fail kind=range-value-predicate font=F text={:?} feats={} expected={:?} got={:?}", gl, feats.iter().map(fmt_feature).collect::<Vec<_>>().join(";"), want, out);
+                            }
+                        }
+                    }
+                }
+            }
+        }
+    }
     println!("api-summary evaluations={} nontrivial={} bad={} t1={} t2={}", st.evals, st.nontrivial, st.bad, t1, st.evals - t1);
 }
 
